@@ -103,6 +103,14 @@ def generic_uf(interp, name, ins, in_dtypes, out_shapes):
   return outs
 
 
+def _arr(x):
+  if isinstance(x, np.ndarray):
+    return x
+  o = np.empty((), dtype=object)
+  o[()] = x
+  return o
+
+
 def p_symstub(self, e, ins):
   name = e.params['name']
   nb = e.params['nbatch']
@@ -113,14 +121,17 @@ def p_symstub(self, e, ins):
   ev = STUB_EVAL.get(name)
   in_dtypes = [v.aval.dtype for v in e.invars]
   for bi in (np.ndindex(*bshape) if nb else [()]):
-    sub = [a[bi] for a in ins]
+    sub = [_arr(a[bi]) for a in ins]
     if ev is not None:
       res = ev(self, sub, e.params)
     else:
       res = generic_uf(self, name, sub, in_dtypes, out_shapes)
     self.ctx.stub_log.append((name, tuple(bi)))
     for k in range(len(out_shapes)):
-      outs[k][bi] = res[k]
+      rk = res[k]
+      if isinstance(rk, np.ndarray) and rk.ndim == 0:
+        rk = rk.item()
+      outs[k][bi] = rk
   return outs
 
 
@@ -193,7 +204,7 @@ def _batched(self, e, ins, core_ndim, fn):
     if outs is None:
       outs = [np.empty(tuple(bshape) + r.shape, dtype=object) for r in res]
     for k, r in enumerate(res):
-      outs[k][bi] = r
+      outs[k][bi] = r.item() if isinstance(r, np.ndarray) and r.ndim == 0 else r
   return outs
 
 
